@@ -53,7 +53,8 @@ def one(spec: Dict[str, Any], rng: random.Random, only_modes: Optional[List[str]
     plan = export_plan(sess, uni)
     u2s = uuid_to_sid(sess)
     rec: Dict[str, Any] = {"spec": spec, "plan": {k: v for k, v in plan.items() if k != "_ren"}, "modes": {}, "problems": []}
-    in_kf = bool(kf_tfs_partial_requirement(plan) or kf_framework_roundtrip(plan) or kf_tfs_missing(plan))
+    from harness import planner_b      # defect domains decided in Coq (Model/PlanDefects.v classify_plan), cached per plan
+    in_kf = bool(planner_b.classify_cached(plan, rep_prefix="C13"))
     rec["in_kf"] = in_kf
     # streamed SYNC run observed for the model
     o = run_observed(sess, stream=True)
